@@ -198,8 +198,12 @@ async def rescan_nglobs(workflow: Workflow, reporter: ReporterClient) -> None:
     without consulting the workflow's file states at all.
     Steps whose nglob matches changed are marked pending and their new matches are persisted.
     """
+    # Detached steps are included:
+    # when a later build defines their creator again, they are attached again with their hash
+    # and skipped, so matches that appeared or vanished while they were detached
+    # must make them pending here.
     async with workflow.db:
-        registrations = list(workflow.nglob_registrations())
+        registrations = list(workflow.nglob_registrations(include_detached=True))
     if len(registrations) == 0:
         return
 
